@@ -120,7 +120,8 @@ Proof.
         destruct (dr_body g D inp (fst i) (snd i) [] (cl_body cl)) as [[w|k|] dd]; inversion H; reflexivity. }
       subst ds. destruct Hin as [Hin|[]]. discriminate.
     + destruct (dr_body g D inp (fst i) (snd i) [] (cl_body cl)) as [rb dd] eqn:Db.
-      inversion H; subst. destruct Hin as [Hin|Hin]; [discriminate|].
+      assert (ds = RObj (fst i) :: dd) by (destruct rb; inversion H; reflexivity). subst ds.
+      destruct Hin as [Hin|Hin]; [discriminate|].
       destruct (IHb _ _ _ _ _ _ _ _ Db c x Hin) as [(A & B)|A]; [|exact A].
       subst c. exists cl. split; assumption.
   - intros D inp me args locs rest r ds H c x Hin. destruct rest as [|s more]; simpl in H.
